@@ -234,7 +234,7 @@ def work(job):
                 src = texts[top]['text'].encode('utf-8')
                 exp, man, cyclic = model(texts, tdir, top, fmt)
                 rq = D.req_to_json('asan', 'TRANSCLUDE', fmt, 0, 0, 0, [src, tdir, os.path.join(tdir, top)])
-                rep = s.call('asan', 'TRANSCLUDE', fmt, 0, 0, 0, [src, tdir, os.path.join(tdir, top)], hang_is_violation=True, crash_is_violation=False,
+                rep = s.call('asan', 'TRANSCLUDE', fmt, 0, 0, 0, [src, tdir, os.path.join(tdir, top)], hang_is_violation=True, crash_is_violation=True,
                              what='[include graph %s]' % g.kind)
                 r.evaluations += 1
                 if rep is None or rep.status:
@@ -267,7 +267,7 @@ def work(job):
                 # manifest through the API families
                 if i % 3 == 0:
                     fam = rng.randrange(3)
-                    rep2 = s.call('asan', 'MANIFEST', 0, D.EXT_CLI, 0, fam, [src, tdir, os.path.join(tdir, top)], hang_is_violation=True, crash_is_violation=False)
+                    rep2 = s.call('asan', 'MANIFEST', 0, D.EXT_CLI, 0, fam, [src, tdir, os.path.join(tdir, top)], hang_is_violation=True, crash_is_violation=True)
                     r.evaluations += 1
                     if rep2 is not None and rep2.status == 0 and not cyclic:
                         # the manifest functions expand for FORMAT_MMD... compare only when no wildcard is involved
@@ -282,7 +282,7 @@ def work(job):
                     if rc == 'timeout':
                         r.violate('cli-hang', 'multimarkdown -t mmd top.txt did not finish within 120 s', case)
                     elif rc == 0:
-                        rep3 = s.call('asan', 'TRANSCLUDE', 11, 0, 0, 0, [src, tdir, os.path.join(tdir, top)], hang_is_violation=True, crash_is_violation=False)
+                        rep3 = s.call('asan', 'TRANSCLUDE', 11, 0, 0, 0, [src, tdir, os.path.join(tdir, top)], hang_is_violation=True, crash_is_violation=True)
                         # cyclic graphs: only termination is promised (the CLI spells paths relative to '.', so its cycle guard sees other strings)
                         if not cyclic and rep3 is not None and rep3.status == 0 and out != rep3.fields[0] and b'mmd header' not in src.lower() and b'mmd footer' not in src.lower():
                             r.violate('cli-differs', 'CLI -t mmd output differs from mmd_transclude_source', case, 'cli: %s\nlib: %s' % (core.show(out, 300), core.show(rep3.fields[0], 300)))
